@@ -777,7 +777,14 @@ where
 {
     let file = log::open(utils::hintfile_name(&path, fileid))?;
     let mut hintfile_iter = LogIterator::new(file)?;
+    // A crash can leave a hint file describing more entries than its data file holds, those
+    // entries are ignored so the keys keep the values found in the files that were being merged.
+    let datafile_len = fs::metadata(utils::datafile_name(&path, fileid))?.len();
     while let Some((_, entry)) = hintfile_iter.next::<HintFileEntry>()? {
+        match entry.pos.checked_add(entry.len) {
+            Some(end) if end <= datafile_len => {}
+            _ => continue,
+        }
         let keydir_entry = KeyDirEntry {
             fileid,
             len: entry.len,
